@@ -77,6 +77,9 @@ S4Verdict(r) ==
   \E fdecl \in {S4(r, r.opt)} : \E w \in {Walk(r, r.tree, r.lo, r.up, fdecl)} :
     PrintT(<<"BENCH", [kind |-> "shekel4", id |-> r.fn, leaves |-> w[1], near |-> w[3],
         failed |-> (IF w[2] = 0 THEN {} ELSE {"LeafNotExcluded"})
+                   \* an observed value below the declared minimum by more than the tolerance, at a point of the box
+                   \cup {"PointBelowDeclaredMinimum" : k \in {j \in 1..Len(r.refute) :
+                            InBox(r.refute[j][1], r.lo, r.up) /\ QLt(r.refute[j][2], QSub(r.optv, r.tvlow))}}
                    \cup (IF CloseRel(r.optv, fdecl) /\ QLeq(QAbs(QSub(r.fobs, r.optv)), QFrac(1, 10000)) THEN {} ELSE {"DeclaredValue"})
                    \cup (IF InBox(r.opt, r.lo, r.up) THEN {} ELSE {"DeclaredPointOutsideBox"})
                    \cup {"FormulaMismatch" : k \in {j \in 1..Len(r.pts) : ~CloseRel(r.pts[j][2], S4(r, r.pts[j][1]))}}]>>)
